@@ -70,11 +70,27 @@ R5  PTF -> records -> table.  build_performance_table: every generated row gives
     that number is the one at its own position of its own block (evaluated on
     sample rows, which also checks the number pattern); a well-formed row at
     flight level 0 / 340 / 510 reaches all three record constructors (guards
-    evaluated on the sample rows: a truthiness test drops level 0).
+    evaluated on the sample rows: a truthiness test drops level 0).  The three
+    blocks of a row are read independently (the same guards evaluated on the
+    sample rows with every proper subset of their blocks blanked out, as BADA
+    leaves the CRUISE block blank below the cruise levels): a row whose other
+    blocks are blank still reaches the record of each block it has -- an
+    early return / continue / nesting on another block's length drops its
+    numbers -- and a blank block gives no record computed from other numbers.
 R6  phase selection and sub-tables: for each flight rule the paths taken use the
     interpolator cached under / built from the rows of the documented sign of
-    ROCD; what is cached under a key is built from that key's rows of the same
-    table; the three row filters of subset() partition the ROCD axis with one
+    ROCD (one built from the unfiltered frame serves no phase); what is cached
+    under a key is built from that key's rows of the same table, wherever the
+    cache lives -- a dict field of the table, or a helper object the table
+    constructs (store class with __getitem__ / get(), dict subclass with
+    __missing__, dataclass; builder passed as lambda or bound method), which
+    the engine opens (section "helper objects" of the Engine); the container
+    the interpolators are kept in is the table's own: every store of that
+    attribute is a new display / constructor call / default_factory per
+    instance -- a class-level object, a module-level object or a mutable
+    default argument left to its default is shared by every table of the
+    process (the answer would depend on which model was evaluated first);
+    the three row filters of subset() partition the ROCD axis with one
     tolerance; the query's flight level is the altitude times exactly
     METERS_TO_FL.
 R7  coordinate <-> value layout of the interpolator, per path through its
@@ -380,13 +396,69 @@ def _assigned_in(stmts) -> set[str]:
     return out
 
 
+def _is_dataclass(k) -> bool:
+    return any(ast.unparse(d).split('(')[0].split('.')[-1] == 'dataclass' for d in k.node.decorator_list)
+
+
+def _field_decl(k, name):
+    return next((x for c in k.mro() for x in c.node.body if isinstance(x, ast.AnnAssign) and isinstance(x.target, ast.Name)
+                 and x.target.id == name), None)
+
+
+def _field_flag(k, name, flag, value) -> bool:
+    """the dataclass field `name` of k is declared with field(..., flag=value)"""
+    d = _field_decl(k, name)
+    return d is not None and isinstance(d.value, ast.Call) and canon(d.value.func).split('.')[-1] == 'field' \
+        and any(kw.arg == flag and const_value(kw.value) is value for kw in d.value.keywords)
+
+
+def _is_classvar(k, name) -> bool:
+    d = _field_decl(k, name)
+    return d is not None and 'ClassVar' in ast.unparse(d.annotation)
+
+
+def _attr_stores(prog) -> dict:
+    """attribute name -> the store / delete targets `<obj>.name` of the program (src), cached"""
+    c = prog.__dict__.get('_c06_attr_stores')
+    if c is None:
+        c = {}
+        for m in prog.src_modules():
+            for n in ast.walk(m.tree):
+                if isinstance(n, ast.Attribute) and isinstance(n.ctx, (ast.Store, ast.Del)):
+                    c.setdefault(n.attr, []).append(n)
+        prog.__dict__['_c06_attr_stores'] = c
+    return c
+
+
+def _sets_by_name(k) -> bool:
+    """some class of k's MRO sets attributes by computed name (setattr / delattr / __dict__)"""
+    for c in k.mro():
+        hit = c.__dict__.get('_c06_sets_by_name')
+        if hit is None:
+            hit = any((isinstance(n, ast.Call) and isinstance(n.func, ast.Name) and n.func.id in ('setattr', 'delattr'))
+                      or (isinstance(n, ast.Attribute) and n.attr in ('__dict__', '__setattr__', '__delattr__'))
+                      for n in ast.walk(c.node))
+            c.__dict__['_c06_sets_by_name'] = hit
+        if hit:
+            return True
+    return False
+
+
 _MUTATORS = {'append', 'extend', 'insert', 'update', 'setdefault', 'add', 'pop', 'remove', 'clear', 'sort', 'reverse'}
 
 
 class Engine:
-    def __init__(self, prog, cap: int = 6000, max_depth: int = 10, inline=None, read_back: bool = True):
+    def __init__(self, prog, cap: int = 6000, max_depth: int = 10, inline=None, read_back: bool = True, objects: bool = False):
         self.prog = prog
         self.read_back = read_back      # a field stored on the path reads back as the stored value
+        # objects: helper objects are opened (see "Helper objects" below): `obj[k]` runs the __getitem__ of obj's
+        # repository class, a field the constructor binds once to its argument reads as that argument, and a
+        # function value that reaches a call through such a field (lambda, bound method) is applied where it is called
+        self.objects = objects
+        self._objinfo: dict = {}        # text of an object expression -> (class, positional, keyword) it was constructed with
+        self._callables: dict = {}      # text of a function value -> how to apply it (closure of a lambda / bound method)
+        self._elem_classes: dict = {}   # text of a container -> classes of the objects the run has stored into it (None: other)
+        self.attr_owner: dict = {}      # text of an attribute value -> (static class of the object, attribute name)
         self.cap = cap
         self.max_depth = max_depth
         self.inline = inline or (lambda fi: fi.file.startswith('src/'))
@@ -508,6 +580,10 @@ class Engine:
             return self.class_of(fr, v, depth + 1) if v is not None else None
         if isinstance(e, ast.Call):
             callee = self.resolve(fr, e)
+            if callee is not None and self.objects:
+                r = self._generic_result(fr, e, callee, depth)
+                if r is not None:
+                    return r
             if callee is not None:
                 sub = Fr(callee, callee.cls, None, fr.stack)
                 for n in walk_no_nested(callee.node):
@@ -516,6 +592,30 @@ class Engine:
                         if r is not None:
                             return r
         return None
+
+    def _generic_result(self, fr: Fr, e: ast.Call, callee, depth):
+        """class of `obj.method(..)` when the method returns a type parameter T of its generic class K[T] and obj is
+        an attribute declared K[SomeClass]"""
+        k = callee.cls
+        ret = callee.node.returns
+        tps = [t.name for t in getattr(k.node, 'type_params', [])] if k is not None else []
+        if not tps or not isinstance(ret, ast.Name) or ret.id not in tps or not isinstance(e.func, ast.Attribute):
+            return None
+        recv = e.func.value
+        if not isinstance(recv, ast.Attribute):
+            return None
+        owner = self.class_of(fr, recv.value, depth + 1)
+        ann = owner.all_fields().get(recv.attr) if owner is not None else None
+        if isinstance(ann, ast.Constant) and isinstance(ann.value, str):
+            try:
+                ann = ast.parse(ann.value, mode='eval').body
+            except SyntaxError:
+                return None
+        if not isinstance(ann, ast.Subscript) or self.class_named(owner.module, ann.value) is not k:
+            return None
+        parts = ann.slice.elts if isinstance(ann.slice, ast.Tuple) else [ann.slice]
+        i = tps.index(ret.id)
+        return self.class_named(owner.module, parts[i]) if i < len(parts) else None
 
     def resolve(self, fr: Fr, c: ast.Call):
         """repository function a *source* call resolves to (methods by the dynamic class of self)"""
@@ -580,8 +680,18 @@ class Engine:
             return out
         if isinstance(e, ast.Subscript):
             out = []
+            gm = self._getitem_of(fr, e) if self.objects else None
             for v, s in self.ev(e.value, st, fr, raises):
                 for sl, s2 in self.ev(e.slice, s, fr, raises):
+                    if gm is not None:
+                        # obj[k] on an object of a repository class: what its __getitem__ returns
+                        for absent, s3 in (self.fork(s2, ast.Compare(left=sl, ops=[ast.NotIn()], comparators=[v]))
+                                           if gm[2] == 'missing' else [(True, s2)]):
+                            if absent:
+                                out += self._inline(gm[1], self._bind_params(gm[1], [sl], {}, v), v, gm[0], s3, fr, raises)
+                            else:
+                                out += self._subscript(v, sl, s3)
+                        continue
                     if isinstance(v, ast.Name) and v.id not in s2.env:
                         v = self.const_table(v, fr)
                     out += self._subscript(v, sl, s2)
@@ -634,6 +744,13 @@ class Engine:
                         out.append(((ast.List if isinstance(e, ast.ListComp) else ast.Set)(elts=done, ctx=ast.Load())
                                     if isinstance(e, ast.ListComp) else ast.Set(elts=done), s2))
             return out
+        if isinstance(e, ast.Lambda) and self.objects:
+            # a function value: applied, where it is called, in the frame it was written in (_apply_value)
+            v = self._subst(e, st)
+            a = e.args
+            if not (a.vararg or a.kwarg or a.kwonlyargs or a.defaults or a.posonlyargs):
+                self._callables.setdefault(canon(v), ('lambda', e, fr, dict(st.env)))
+            return [(v, st)]
         if isinstance(e, (ast.Lambda, ast.ListComp, ast.SetComp, ast.GeneratorExp, ast.DictComp)):
             return [(self._subst(e, st), st)]
         if isinstance(e, (ast.Await, ast.Yield, ast.YieldFrom)):
@@ -746,8 +863,173 @@ class Engine:
                                       (ast.unparse(x) for x in kc.node.decorator_list)) \
                     and e.attr in kc.all_fields() and not self._init_stores(kc, e.attr):
                 return [(next(kw.value for kw in v.keywords if kw.arg == e.attr), st)]
+        if self.objects and k is not None:
+            fv = self._ctor_field(k, e.attr, v)
+            if fv is not None:
+                return [(fv, st)]
         node = simp(ast.Attribute(value=v, attr=e.attr, ctx=ast.Load()))
+        if self.objects and k is not None and isinstance(node, ast.Attribute):
+            self._note_object(k, e.attr, v, node)
+            self.attr_owner.setdefault(canon(node), (k, e.attr))
         return [(self._heap(node, st), st)]
+
+    # ---------------------------------------------------------------- helper objects
+    # A class may keep part of its state in a small object of another repository class (a per-phase store, a lazy
+    # cache with a builder).  What such an object *is* is decided from constructors only: `self.f = K2(args)` as a
+    # top-level statement of the owner's constructor that is the only store of an attribute named f in the program
+    # makes `<owner>.f` an object of K2 constructed with args (self read as the owner); `self.g = param` under the same
+    # conditions in K2's constructor makes `<owner>.f.g` the argument given for param.  The object keeps its own name
+    # (`<owner>.f`), so stores into it and reads from it meet on the heap as for any other attribute.
+    def _getitem_of(self, fr: Fr, e: ast.Subscript):
+        if isinstance(getattr(e, 'ctx', None), (ast.Store, ast.Del)):
+            return None
+        try:
+            k = self.class_of(fr, e.value)
+        except Exception:
+            k = None
+        gm = k.find_method('__getitem__') if k is not None else None
+        how = 'getitem'
+        if gm is None and k is not None and any(b.split('[')[0].split('.')[-1] in ('dict', 'Dict', 'UserDict', 'defaultdict', 'OrderedDict')
+                                                for b in k.base_exprs):
+            # a mapping that computes its missing entries: obj[k] is the entry when there is one, else what __missing__ returns
+            gm, how = k.find_method('__missing__'), 'missing'
+        if gm is None or not gm.file.startswith('src/') or not self._may_inline(gm, fr) or len(gm.params) != 2:
+            return None
+        return k, gm, how
+
+    def _ctor_binding(self, k, attr):
+        """(constructor, value expression) of `self.attr = value` when that is a top-level statement of k's constructor
+        (which has no early return) and the only store of an attribute of that name in the program"""
+        cache = self.prog.__dict__.setdefault('_c06_ctor_binding', {})
+        key = (k.module.relpath, k.name, attr)
+        if key in cache:
+            return cache[key]
+        cache[key] = res = None
+        init = k.find_method('__init__') or k.find_method('__post_init__')
+        if init is None or not init.params or not init.file.startswith('src/'):
+            return None
+        me = init.params[0]
+        stmt = None
+        for s in init.node.body:
+            t = s.targets[0] if isinstance(s, ast.Assign) and len(s.targets) == 1 else \
+                s.target if isinstance(s, ast.AnnAssign) and s.value is not None else None
+            if isinstance(t, ast.Attribute) and t.attr == attr and isinstance(t.value, ast.Name) and t.value.id == me:
+                stmt = (s, t)
+                break
+        if stmt is None or any(isinstance(n, ast.Return) for n in walk_no_nested(init.node)):
+            return None
+        if init.name == '__post_init__':
+            # a dataclass field the generated __init__ stores as well is not bound by __post_init__ alone
+            if _field_decl(k, attr) is not None and not _field_flag(k, attr, 'init', False):
+                return None
+        stores = _attr_stores(self.prog)
+        if [id(x) for x in stores.get(attr, [])] != [id(stmt[1])]:
+            return None
+        if _sets_by_name(k):
+            return None         # the class sets attributes by computed name
+        cache[key] = res = (init, stmt[0].value)
+        return res
+
+    def _note_object(self, k, attr, owner, node):
+        """remember what `<owner>.attr` was constructed with when k's constructor binds attr to a new object"""
+        key = canon(node)
+        if key in self._objinfo:
+            return
+        b = self._ctor_binding(k, attr)
+        if b is None or not isinstance(b[1], ast.Call):
+            return
+        init, call = b
+        k2 = self.class_named(init.module, call.func)
+        if k2 is None or not k2.module.relpath.startswith('src/'):
+            return
+        me = init.params[0]
+        local = (set(init.params) | _assigned_in(init.node.body)) - {me}
+
+        def closed(x, bound=frozenset()):
+            """x reads nothing of the constructor's frame but the new object's owner"""
+            if isinstance(x, ast.Lambda):
+                a = x.args
+                if a.vararg or a.kwarg or a.kwonlyargs or a.defaults or a.posonlyargs:
+                    return False
+                return closed(x.body, bound | {y.arg for y in a.args})
+            if any(isinstance(n, (ast.Lambda, ast.NamedExpr, ast.ListComp, ast.SetComp, ast.DictComp, ast.GeneratorExp, ast.Starred,
+                                  ast.Await, ast.Yield, ast.YieldFrom)) for n in ast.walk(x)):
+                return False
+            return not any(isinstance(n, ast.Name) and n.id in local and n.id not in bound for n in ast.walk(x))
+        if any(k_.arg is None for k_ in call.keywords) or not all(closed(a) for a in list(call.args) + [k_.value for k_ in call.keywords]):
+            return
+        st0 = St(env={me: owner})
+        dfr = Fr(init, k, owner, ())
+
+        def val(a):
+            v = self._subst(a, st0)
+            if isinstance(a, ast.Lambda):
+                self._callables[canon(v)] = ('lambda', a, dfr, {me: owner})
+            elif isinstance(a, ast.Attribute) and isinstance(a.value, ast.Name) and a.value.id == me:
+                m = k.find_method(a.attr)
+                if m is not None and not any(d.split('.')[-1].split('(')[0] in ('property', 'cached_property', 'staticmethod', 'classmethod')
+                                             for d in m.decorators()):
+                    self._callables[canon(v)] = ('method', m, k, owner)
+            return v
+        self._objinfo[key] = (k2, [val(a) for a in call.args], {k_.arg: val(k_.value) for k_ in call.keywords})
+
+    def _ctor_field(self, k, attr, obj):
+        """value of `obj.attr` when obj's constructor binds attr once to one of its arguments, else None"""
+        info = self._objinfo.get(canon(obj))
+        if info is None and isinstance(obj, ast.Call) and isinstance(obj.func, ast.Name):
+            k2 = next((c for c, _ in self.ctors if c.name == obj.func.id), None)
+            if k2 is not None and not any(x.arg is None for x in obj.keywords) and not any(isinstance(a, ast.Starred) for a in obj.args):
+                info = (k2, list(obj.args), {x.arg: x.value for x in obj.keywords})
+        if info is None:
+            return None
+        k2, pos, kw = info
+        if k2.find_method('__init__') is None and _is_dataclass(k2) and attr in k2.all_fields():
+            # a field of a dataclass that nothing in the program stores again is what the constructor call gave for it
+            stores = _attr_stores(self.prog)
+            if stores.get(attr) or _sets_by_name(k2):
+                return None
+            flds = [f for f in k2.all_fields() if not _field_flag(k2, f, 'init', False) and not _is_classvar(k2, f)]
+            if attr not in flds or len(pos) > len(flds):
+                return None
+            given = dict(zip(flds, pos))
+            given.update(kw)
+            return given.get(attr)
+        b = self._ctor_binding(k2, attr)
+        if b is None or b[0].name != '__init__' or not isinstance(b[1], ast.Name):
+            return None
+        init, src = b
+        if src.id not in init.params[1:] or src.id in _assigned_in(init.node.body):
+            return None
+        a = init.node.args
+        if a.vararg is not None and a.vararg.arg == src.id or a.kwarg is not None and a.kwarg.arg == src.id:
+            return None
+        v = self._bind_params(init, pos, kw, obj).get(src.id)
+        if v is None or is_sym(v, '_param'):
+            return None
+        dflt = [d for d in list(a.defaults) + [d for d in a.kw_defaults if d is not None]]
+        if any(v is d for d in dflt) and not isinstance(v, ast.Constant):
+            return None
+        return v
+
+    def _apply_value(self, fv, pos, kw, st, fr, raises):
+        """results of calling the function value fv (a lambda or bound method that reached the call through a field of a
+        helper object) in its own frame, or None when fv is not such a value"""
+        how = self._callables.get(canon(fv)) if fv is not None else None
+        if how is None or kw or any(isinstance(x, ast.Starred) for x in pos):
+            return None
+        if how[0] == 'lambda':
+            _, lam, dfr, denv = how
+            names = [x.arg for x in lam.args.args]
+            tag = f'{dfr.fi.qualname}.<lambda>:{lam.lineno}'
+            if len(names) != len(pos) or tag in fr.stack or len(fr.stack) >= self.max_depth:
+                return None
+            sub = Fr(dfr.fi, dfr.cls, dfr.self_val, fr.stack + (tag,))
+            saved = st.env
+            return [(v, s.but(env=saved)) for v, s in self.ev(lam.body, st.but(env={**denv, **dict(zip(names, pos))}), sub, raises)]
+        _, m, k, owner = how
+        if not self._may_inline(m, fr):
+            return None
+        return self._inline(m, self._bind_params(m, pos, kw, owner), owner, k, st, fr, raises)
 
     def _init_stores(self, k, attr) -> bool:
         pi = k.find_method('__post_init__')
@@ -883,18 +1165,37 @@ class Engine:
         if isinstance(f, ast.Name) and isinstance(st.env.get(f.id), _Closure):
             callee, closure_env = st.env[f.id].fi, st.env
         elif isinstance(f, ast.Name) and f.id in st.env and isinstance(st.env[f.id], ast.Lambda) and not kw \
-                and not any(isinstance(x, ast.Starred) for x in pos):
+                and not any(isinstance(x, ast.Starred) for x in pos) and canon(st.env[f.id]) not in self._callables:
             lam = st.env[f.id]
             names = [x.arg for x in lam.args.args]
             if len(names) == len(pos):
                 return self.ev(lam.body, st.but(env={**st.env, **dict(zip(names, pos))}), fr, raises)
         else:
             callee = self.resolve(fr, c)
+        if callee is None and self.objects:
+            # a function value kept in a field of a helper object, or bound to a local from one
+            fv = None
+            if isinstance(f, ast.Attribute) and recv is not None:
+                k0 = fr.cls if isinstance(f.value, ast.Name) and f.value.id in ('self', 'cls') else self.class_of(fr, f.value)
+                fv = self._ctor_field(k0, f.attr, recv) if k0 is not None else None
+            elif isinstance(f, ast.Name) and isinstance(st.env.get(f.id), ast.expr):
+                fv = st.env[f.id]
+            res = self._apply_value(fv, pos, kw, st, fr, raises)
+            if res is not None:
+                return res
         # the class of a callable *value* (an object constructed on this path)
         if callee is None and recv is not None and not isinstance(f, ast.Attribute) and isinstance(recv, ast.Call):
             k = self.class_named(fr.fi.module, recv.func)
+            if k is None and self.objects and isinstance(recv.func, ast.Name):
+                k = next((c for c, _ in self.ctors if c.name == recv.func.id), None)
             if k is not None:
                 callee = k.find_method('__call__')
+        if callee is None and self.objects and recv is not None and not isinstance(f, (ast.Attribute, ast.Name)) \
+                and isinstance(recv, ast.Subscript):
+            # an entry of a container into which the run has stored objects of one class only
+            ks = self._elem_classes.get(canon(recv.value))
+            if ks and len(ks) == 1 and None not in ks:
+                callee = next(iter(ks.values())).find_method('__call__')
         # constructor?
         k = None
         if isinstance(f, ast.Name) and f.id == 'cls' and fr.cls is not None and 'cls' in fr.fi.params[:1]:
@@ -1025,6 +1326,10 @@ class Engine:
             for b, s in self._ev_noheap(t.value, st, fr, raises):
                 for sl, s2 in self.ev(t.slice, s, fr, raises):
                     tgt = ast.Subscript(value=b, slice=sl, ctx=ast.Load())
+                    if self.objects:
+                        kc = next((c for c, _ in self.ctors if c.name == val.func.id), None) \
+                            if isinstance(val, ast.Call) and isinstance(val.func, ast.Name) else None
+                        self._elem_classes.setdefault(canon(b), {})[kc.name if kc is not None else None] = kc
                     s3 = s2.store(canon(tgt), val)
                     out.append(s3.event(Event('store', fr, node, s3, target=tgt, value=val)))
             return out
@@ -2111,7 +2416,7 @@ def evaluate_paths(ctx):
     if ev is None:
         raise AnalysisError('anchor vanished: BasePerformanceModel.evaluate')
     prog.consulted.add(ev.file)
-    eng = Engine(prog)
+    eng = Engine(prog, objects=True)
     names = ['self', 'state', 'rules']
     args = {p: _name(n) for p, n in zip(ev.params, names)}
     try:
@@ -2588,7 +2893,16 @@ def rule_masses(ctx):
             tb, mask = _split_filter(I.args[0])
             if mask is not None:
                 return axis.mask_band(mask, tb)[0], f'built from rows where {canon(mask)[:50]}'
+            if whole_table(tb):
+                return 'A', f'built from all rows of `{canon(tb)[:50]}`, whatever their ROCD'
         return None, canon(I)[:60]
+
+    def whole_table(x):
+        """x is the row frame of a performance table as it stands (a DataFrame field of the table class), unfiltered"""
+        if not isinstance(x, ast.Attribute):
+            return False
+        ann = table_cls.all_fields().get(x.attr)
+        return ann is not None and 'DataFrame' in ast.unparse(ann)
     for X in members:
         def atom(n, X=X):
             if isinstance(n, ast.Name) and n.id == 'rules':
@@ -2608,34 +2922,54 @@ def rule_masses(ctx):
         bad = [g for g in got if g[0] is not None and g[0] != PHASE_BAND[X]]
         if und and not bad:
             ctx.undecided('C06-R6', und[0][2].fi, und[0][1], f'sub-table evaluated for {X} not recognised')
-        names = {'P': 'positive', 'Z': 'zero', 'N': 'negative'}
+        names = {'P': 'positive', 'Z': 'zero', 'N': 'negative', 'A': 'all'}
         ctx.ob('C06-R6', evf, f'{X} → {sorted({names.get(g[0], "?") for g in got})} ROCD rows', not bad,
                f'{X} uses the {names[PHASE_BAND[X]]}-ROCD sub-table' if not bad else
-               f'flight phase {X} evaluates the {names.get(bad[0][0])}-ROCD sub-table ({bad[0][1]})',
+               (f'flight phase {X} evaluates the whole table instead of its {names[PHASE_BAND[X]]}-ROCD rows ({bad[0][1]})'
+                if bad[0][0] == 'A' else f'flight phase {X} evaluates the {names.get(bad[0][0])}-ROCD sub-table ({bad[0][1]})'),
                line=(bad[0][2].line if bad else evf.node.lineno))
     # the interpolator cached under a key is the one built from that key's rows, of the same table
     nst = 0
     seen = set()
+    caches = {}
     for p in paths:
         for e in p.st.events:
             if e.kind == 'store' and isinstance(e.target, ast.Subscript) and isinstance(e.value, ast.Call) and e.value.args \
                     and isinstance(e.value.func, ast.Name) and isinstance(e.target.value, ast.Attribute):
                 d = _dotted_const(e.target.slice)
                 tb, mask = _split_filter(e.value.args[0])
-                if d is None or mask is None:
+                if d is None or (mask is None and not whole_table(tb)):
                     continue
                 k = (d, canon(mask))
                 if k in seen:
                     continue
                 seen.add(k)
                 nst += 1
+                caches.setdefault(canon(e.target.value), (e.target.value, e))
+                if mask is None:
+                    ctx.ob('C06-R6', e.fi, f'interpolator cached under {d} is built from `{canon(tb)[:60]}`', False,
+                           f'the interpolator cached under {d} is built from all rows of the table, not from the rows of that phase',
+                           line=e.line)
+                    continue
                 b = axis.mask_band(mask, tb)[0]
-                same_table = canon(tb).startswith(canon(e.target.value.value) + '.')
+                # the cache belongs to the table whose rows it holds: it is reached from that table object
+                # (`T.cache[k]`, or `T.store.items[k]` through a helper object T keeps)
+                same_table = isinstance(tb, ast.Attribute) and canon(e.target.value).startswith(canon(tb.value) + '.')
                 ok = b is not None and b == FILTER_BAND.get(d.rsplit('.', 1)[-1]) and same_table
                 ctx.ob('C06-R6', e.fi, f'interpolator cached under {d} is built from rows where {canon(mask)[:60]}', ok,
                        'key and sub-table agree' if ok else
                        'phase interpolator cache key and the sub-table it was built from disagree', line=e.line)
     ctx.floor('C06-R6/cache', nst, 3, 'interpolators cached per phase filter')
+    # ... and the cache is the table's own: an object created for that table, not one every table of the process shares
+    for ctext, (c_expr, e) in sorted(caches.items()):
+        kind, what = _container_origin(prog, eng, c_expr)
+        if kind == 'unknown':
+            ctx.undecided('C06-R6', e.fi, ctext[:80], f'cannot tell where the container of the phase interpolators comes from ({what})')
+        ctx.ob('C06-R6', e.fi, f'phase interpolators are kept in `{ctext[:70]}`, a container of the table\'s own', kind == 'fresh',
+               what if kind == 'fresh' else
+               f'the phase interpolators of a table are kept in `{ctext[:70]}`, which is {what}: every table of the process '
+               f'stores into and reads from the same container, so a model evaluated after another one for the same phase answers '
+               f'with the other model\'s table (the result no longer depends on altitude, mass and phase only)', line=e.line)
 
     # ---- R6: the three sub-table filters partition the ROCD axis with one tolerance
     sb = next((f for f in table_cls.methods.values() if any(
@@ -2681,6 +3015,103 @@ def rule_masses(ctx):
            '< −tol | [−tol, tol] | > tol' if ok else
            'the three ROCD filters overlap, leave a gap, or select the wrong sign: '
            + '; '.join(f'{X}: {canon(v[0][2])[:50]}' for X, v in sorted(bands.items())))
+
+
+_FRESH_NODES = (ast.Dict, ast.List, ast.Set, ast.DictComp, ast.ListComp, ast.SetComp)
+
+
+def _container_origin(prog, eng, c_expr, depth=0):
+    """('fresh' | 'shared' | 'unknown', description): where the container object `<obj>.attr` (a value of the evaluate
+    run) comes from, decided on every store of the attribute in the class of obj: fresh when each is a new display /
+    comprehension / constructor call / dataclass default_factory evaluated per instance; shared when one is a
+    class-level object, a module-level object or the default value of a parameter that the construction site leaves
+    to its default."""
+    own = eng.attr_owner.get(canon(c_expr)) if isinstance(c_expr, ast.Attribute) else None
+    if own is None:
+        return 'unknown', 'not an attribute of an object of a repository class'
+    k, attr = own
+    obj = c_expr.value
+
+    def is_fresh_call(v, m):
+        if not isinstance(v, ast.Call):
+            return False
+        r = prog.resolve_name(m, v.func.id) if isinstance(v.func, ast.Name) else None
+        return not isinstance(r, FunctionInfo)      # a builtin, an external factory or a class: a new object per call
+
+    def classify(v, meth):
+        m = meth.module if meth is not None else k.module
+        if isinstance(v, _FRESH_NODES) or is_fresh_call(v, m):
+            return 'fresh', 'a new object'
+        if isinstance(v, ast.BoolOp) and isinstance(v.op, ast.Or) or isinstance(v, ast.IfExp):
+            alts = v.values if isinstance(v, ast.BoolOp) else [v.body, v.orelse]
+            rs = [classify(x, meth) for x in alts]
+            rs = [r for r in rs if r[0] != 'none']
+            for want in ('shared', 'unknown', 'fresh'):
+                hit = next((r for r in rs if r[0] == want), None)
+                if hit:
+                    return hit
+            return 'unknown', canon(v)[:60]
+        if isinstance(v, ast.Constant) and v.value is None:
+            return 'none', 'None'
+        if isinstance(v, ast.Name) and meth is not None and v.id in meth.params and v.id not in _assigned_in(meth.node.body):
+            a = meth.node.args
+            info = eng._objinfo.get(canon(obj))
+            if info is None or meth.name != '__init__':
+                return 'unknown', f'parameter {v.id} of {meth.qualname}'
+            given = eng._bind_params(meth, info[1], info[2], obj).get(v.id)
+            dflts = list(a.defaults) + [d for d in a.kw_defaults if d is not None]
+            if any(given is d for d in dflts):
+                if isinstance(given, _FRESH_NODES) or isinstance(given, ast.Call):
+                    return 'shared', (f'the default value `{canon(given)}` of parameter `{v.id}` of {meth.qualname} (line {meth.node.lineno}), '
+                                      f'an object created once, when the function is defined')
+                return classify(given, None)
+            if given is None or is_sym(given, '_param'):
+                return 'unknown', f'parameter {v.id} of {meth.qualname}'
+            return classify(given, None)
+        if isinstance(v, ast.Name):
+            r = prog.resolve_name(m, v.id)
+            if isinstance(r, tuple) and r[0] == 'const':
+                val = r[1].constants[r[2]]
+                if isinstance(val, _FRESH_NODES) or isinstance(val, ast.Call):
+                    return 'shared', f'the module-level object `{v.id}` of {r[1].relpath.split("/")[-1]}'
+        return 'unknown', canon(v)[:60]
+
+    found = []
+    for c in k.mro():
+        for meth in c.methods.values():
+            me = meth.params[0] if meth.params else None
+            for t, stmt, how in stores_to(meth.node):
+                if isinstance(t, ast.Attribute) and t.attr == attr and isinstance(t.value, ast.Name) and t.value.id == me:
+                    v = getattr(stmt, 'value', None)
+                    if how in ('assign', 'ann') and v is not None and not (isinstance(stmt, ast.Assign) and isinstance(stmt.targets[0], (ast.Tuple, ast.List))):
+                        found.append(classify(v, meth))
+                    else:
+                        found.append(('unknown', f'`{canon(stmt)[:50]}`'))
+    if not found:
+        d = _field_decl(k, attr)
+        cls_val = d.value if d is not None else next((v for c in k.mro() for n, v in c.class_assignments().items() if n == attr), None)
+        if cls_val is None:
+            return 'unknown', f'no store of {k.name}.{attr} found'
+        if isinstance(cls_val, ast.Call) and canon(cls_val.func).split('.')[-1] == 'field':
+            fac = next((kw.value for kw in cls_val.keywords if kw.arg == 'default_factory'), None)
+            if fac is not None and _is_dataclass(k):
+                return 'fresh', f'created per instance by the default_factory of {k.name}.{attr}'
+            return 'unknown', canon(cls_val)[:60]
+        if isinstance(cls_val, _FRESH_NODES) or isinstance(cls_val, ast.Call):
+            return 'shared', f'the class-level object `{k.name}.{attr} = {canon(cls_val)[:30]}` (no instance ever gets its own)'
+        return 'unknown', canon(cls_val)[:60]
+    for want in ('shared', 'unknown'):
+        hit = next((r for r in found if r[0] == want), None)
+        if hit:
+            return hit
+    if all(r[0] == 'none' for r in found):
+        return 'unknown', f'{k.name}.{attr} is only ever set to None'
+    if isinstance(obj, ast.Attribute) and depth < 3 and canon(obj) in eng._objinfo:
+        # the container is fresh per helper object: the helper object itself must be the table's own
+        r = _container_origin(prog, eng, obj, depth + 1)
+        if r[0] != 'fresh':
+            return r
+    return 'fresh', f'created by {k.name} for each instance'
 
 
 # ======================================================================================================
@@ -3667,6 +4098,9 @@ def _rule_ptf_load(ctx, pt, ptf_cls, phase_of, consts):
                 sites.setdefault((e.cls.name, e.line, canon(e.value)), []).append(e)
     nconv = 0
     reached = {ph: [] for ph in PTF_BLOCKS}
+    partial = {ph: [] for ph in PTF_BLOCKS}      # rows with other blocks blank: (flight level, blank blocks, blocking conditions, line)
+    invented = {ph: [] for ph in PTF_BLOCKS}     # rows whose own block is blank and that reach the record all the same
+    seen_guard = set()                           # phases whose "has the block its numbers" test was evaluated on a blank block
     # the row being parsed: the loop element of the innermost loop the constructors sit in
     for (cname, line, _), evs in sorted(sites.items(), key=lambda kv: kv[0][1]):
         e = evs[0]
@@ -3757,31 +4191,56 @@ def _rule_ptf_load(ctx, pt, ptf_cls, phase_of, consts):
                         ok = why is None
             ctx.ob('C06-R5', ld, f'{cname}.{f} = {canon(v).replace(rowt, "line")[:70]}', ok,
                    f'number {want_idx} of the {ph} block × {PTF_UNIT[q]}' + (' negated (descent)' if want_neg else '') if ok else why, line=line)
-        # reachability for well-formed rows
-        for text, fl, _ in PTF_SAMPLES:
-            best = None
+        # reachability: the conditions about the row under which the record is built, evaluated on a row
+        def blockers(text, evs=evs, rowt=rowt, on_sample=on_sample):
+            """(conditions that keep the row from the record on the path that comes closest, all conditions decided?)"""
+            best, sure = None, True
             for ev in evs:
-                fails = []
+                fails, decided = [], True
                 for cond, pol in ev.pc:
                     c2 = cond.args[1] if is_sym(cond, '_in_loop') else cond
                     if not any(is_sym(n, '_each') and canon(n) == rowt for n in ast.walk(c2)):
                         continue
                     if any(is_sym(n, '_loopvar') or is_sym(n, '_maybe') for n in ast.walk(c2)):
+                        decided = False
                         continue
                     try:
                         val = bool(on_sample(c2, text))
                     except Unknown:
+                        decided = False
                         continue
                     except Exception:
                         val = None
                     if val is not pol:
                         fails.append((c2, pol))
                 if best is None or len(fails) < len(best):
-                    best = fails
+                    best, sure = fails, decided
                 if not fails:
                     break
-            reached[ph].append((fl, best, line))
+            return best, sure
+        for text, fl, _ in PTF_SAMPLES:
+            reached[ph].append((fl, blockers(text)[0], line))
+        # ... and on the same rows with some blocks left blank (BADA leaves the CRUISE block of the levels below the
+        # cruise range blank): every block is read on its own
+        for text, fl, blank in _partial_rows():
+            fails, sure = blockers(text)
+            if ph in blank:
+                if fails:
+                    seen_guard.add(ph)
+                # only a record whose numbers can be computed from the row counts: where reading the blank block fails
+                # (an index / unpacking error) the path may be one an exception handler takes over
+                if not fails and sure:
+                    try:
+                        vals = {f: on_sample(v, text) for f, v in given.items() if f != 'fl'}
+                    except Exception:
+                        vals = None
+                    if vals and all(isinstance(x, (int, float)) and not isinstance(x, bool) for x in vals.values()):
+                        invented[ph].append((fl, blank, line, vals))
+            else:
+                partial[ph].append((fl, blank, fails, line))
     ctx.floor('C06-R5/conv', nconv, 12, 'PTF field conversions')
+    # the blank-block rows decide something only where the loader's own "block has its numbers" tests can be evaluated
+    ctx.floor('C06-R5/blank', len(seen_guard), 1, 'block guards evaluated on rows with a blank block')
     for ph in PTF_BLOCKS:
         if not reached[ph]:
             ctx.ob('C06-R5', ld, f'{ph} records are built', False, f'no {ph} record is constructed by the loader')
@@ -3794,6 +4253,45 @@ def _rule_ptf_load(ctx, pt, ptf_cls, phase_of, consts):
                 f'`{_show_row(bad[0][1][0][0])[:90]}` is {"true" if bad[0][1][0][1] else "false"}, which it is not for this row'
                 + (' (a truthiness test on the flight level drops level 0)' if bad[0][0] == 0 else '')),
                line=(bad[0][2] if bad else ld.node.lineno))
+        if not partial[ph]:
+            continue
+        # rows with blank blocks: judged against the complete row of the same level, which must itself get through
+        whole = {fl for fl, fails, _ in reached[ph] if not fails}
+        bad = [(fl, blank, fails, line) for fl, blank, fails, line in partial[ph] if fails and fl in whole]
+        order = list(PTF_BLOCKS)
+        bad.sort(key=lambda b: (len(b[1]), sorted(order.index(x) for x in b[1]), b[0]))      # the simplest such row first
+        ok = not bad
+        if ok:
+            why = f'the {ph} block is read whatever the other blocks of the row hold'
+        else:
+            fl, blank, fails, _ = bad[0]
+            names = ' and '.join(x.upper() for x in sorted(blank, key=order.index))
+            why = (f'a row of flight level {fl} whose {names} block is blank'
+                   + (' (as BADA PTF files have below the cruise levels)' if blank == frozenset({'cruise'}) else '')
+                   + f' gives no {ph} record: the record is only built when `{_show_row(fails[0][0])[:90]}` is '
+                   f'{"true" if fails[0][1] else "false"}, which it is not for this row, so the {ph.upper()} numbers of '
+                   f'the row are dropped and the generated model does not reproduce them')
+        ctx.ob('C06-R5', ld, f'a table row with other blocks blank still reaches the {ph} record', ok, why,
+               line=(bad[0][3] if bad else ld.node.lineno))
+        inv = invented[ph]
+        ctx.ob('C06-R5', ld, f'a blank {ph} block gives no {ph} record', not inv,
+               f'the {ph} record is built only from a row that has {ph} numbers' if not inv else
+               f'a row of flight level {inv[0][0]} whose {ph.upper()} block is blank still gives a {ph} record '
+               f'({", ".join(f"{f}={x:.6g}" for f, x in list(inv[0][3].items())[:3])}, ...): numbers that are not in that block '
+               f'of the row', line=(inv[0][2] if inv else ld.node.lineno))
+
+
+def _partial_rows():
+    """the sample rows with every proper non-empty subset of their blocks blanked out: (text, flight level, blank blocks)"""
+    out = []
+    phases = list(PTF_BLOCKS)
+    for text, fl, _ in PTF_SAMPLES:
+        cells = text.split('|')
+        for mask in range(1, 2 ** len(phases) - 1):
+            blank = frozenset(ph for i, ph in enumerate(phases) if mask >> i & 1)
+            c2 = [(' ' * len(c) if any(PTF_BLOCKS[ph][0] == i for ph in blank) else c) for i, c in enumerate(cells)]
+            out.append(('|'.join(c2), fl, blank))
+    return out
 
 
 def _show_row(e) -> str:
